@@ -279,6 +279,7 @@ func treeString(n ast.Node) string {
 	// stands before the field: report it as the field's
 	labelDocs := map[*ast.Field][]*ast.CommentGroup{}
 	skip := map[*ast.CommentGroup]bool{}
+	skipEmpty := map[*ast.ImportDecl]bool{}
 	ast.Walk(n, func(nd ast.Node) bool {
 		if f, ok := nd.(*ast.Field); ok && f.Label != nil {
 			for _, cg := range ast.Comments(f.Label) {
@@ -299,6 +300,12 @@ func treeString(n ast.Node) string {
 	}
 	ast.Walk(n, func(nd ast.Node) bool {
 		if cg, ok := nd.(*ast.CommentGroup); ok && skip[cg] {
+			return false
+		}
+		// an import declaration without specs imports nothing; the formatter drops it on purpose
+		// (tools/trim relies on that, see its rmimport test)
+		if id, ok := nd.(*ast.ImportDecl); ok && len(id.Specs) == 0 {
+			skipEmpty[id] = true
 			return false
 		}
 		b.WriteString(strings.Repeat(" ", depth))
@@ -341,6 +348,9 @@ func treeString(n ast.Node) string {
 		return true
 	}, func(nd ast.Node) {
 		if cg, ok := nd.(*ast.CommentGroup); ok && skip[cg] {
+			return
+		}
+		if id, ok := nd.(*ast.ImportDecl); ok && skipEmpty[id] {
 			return
 		}
 		depth--
